@@ -36,7 +36,7 @@ func init() {
 		Rule: "case = (topology: 1..3 hot shards x 1..3 replicas, optional long-term tier; per-host behaviour of the search call: ok / error / wants-old-data / too-many-fractions; per-host behaviour of the fetch stream: ok / error / breaks after k documents / missing / extra / reordered documents; request with offset/size/order); " +
 			"the real search.Ingestor runs over scripted fake stores that answer from the reference model; exhaustive over the search alphabet for topologies up to 2x2 (+1x1 long-term), seeded beyond and for fetch faults; " +
 			"oracle from the recorded responses: A = shards with an answering replica; outcome = error, or IDs = page of the de-duplicated merge over A, flagged partial iff some shard is outside A (never an unflagged incomplete result); " +
-			"wants-old-data => the long-term stores were consulted; document i is the document of ID i, or empty, and not empty when its store's stream was flawless. " +
+			"wants-old-data => the long-term stores were consulted; document i is the document of ID i, or empty, and not empty when its store's stream carried every requested document in order (flawless, or with an extra document nobody asked for). " +
 			"non-trivial = at least one shard answered and at least one fault was injected; distinct = (topology, behaviour assignment)",
 		Assumptions: []string{"fake stores answer instantly and ignore cancellation; when several shards return different special codes the order in which the proxy sees them is scheduler-dependent and either documented outcome is accepted"},
 		Batches:     tiered(320, 5760),
@@ -456,12 +456,13 @@ func c16Case(w *h.W, r *h.Rng, corp *gen.Corpus, topo c16Topo, sb, fb []string, 
 					if len(docs[i]) == 0 {
 						// empty is only legal if the delivering store's stream was faulty; the hint names the store that answered for this ID
 						src := strings.TrimPrefix(qpr.IDs[i].Hint, "frac-")
-						if hst, ok := clients[src].(*c16Host); ok && hst.fetch == "ok" {
+						// (a stream that carries every requested document in order plus one nobody asked for did deliver them)
+						if hst, ok := clients[src].(*c16Host); ok && (hst.fetch == "ok" || hst.fetch == "extra") {
 							var order []string
 							for _, x := range qpr.IDs {
 								order = append(order, strings.TrimPrefix(x.Hint, "frac-"))
 							}
-							bad = fmt.Sprintf("wrong-docs: document %d (%s) is empty although the fetch stream of its store %s was flawless (delivering stores by position: %v)", i, got[i], src, order)
+							bad = fmt.Sprintf("wrong-docs: document %d (%s) is empty although the fetch stream of its store %s carried every requested document (delivering stores by position: %v)", i, got[i], src, order)
 						}
 						continue
 					}
